@@ -16,6 +16,9 @@ one kind of rewrite at a time, edits that cannot change behaviour:
 * ``hoist-return``    ``return e`` -> ``result_ = e; return result_``
 * ``hoist-args``      non-trivial call arguments of statement-level calls are
                       bound to temporaries first
+* ``guard-clause``    a trailing ``if c: BODY`` of a loop body / function becomes
+                      ``if not c: continue`` (``return``) followed by BODY
+* ``unguard``         the inverse for ``if c: continue`` guard clauses
 * ``keywordise``      positional arguments of calls to package functions are
                       passed by keyword
 
@@ -165,6 +168,54 @@ def t_log_ends(f: ast.FunctionDef, tree: ast.Module) -> bool:
                 continue
             n.body.append(_log_stmt())
             changed = True
+    return changed
+
+
+def _neg(test: ast.expr) -> ast.expr:
+    if isinstance(test, ast.UnaryOp) and isinstance(test.op, ast.Not):
+        return test.operand
+    return ast.UnaryOp(op=ast.Not(), operand=test)
+
+
+def t_guard_clause(f: ast.FunctionDef, tree: ast.Module) -> bool:
+    """``for ..: ...; if c: BODY`` -> ``for ..: ...; if not c: continue;
+    BODY`` and, at the end of a function, ``if c: BODY`` -> ``if not c:
+    return; BODY``."""
+    changed = False
+    for n in ast.walk(f):
+        if isinstance(n, (ast.For, ast.While)) and n.body and isinstance(
+                n.body[-1], ast.If) and not n.body[-1].orelse:
+            last = n.body[-1]
+            n.body[-1:] = [ast.If(test=_neg(last.test),
+                                  body=[ast.Continue()], orelse=[])] + \
+                list(last.body)
+            changed = True
+    if f.body and isinstance(f.body[-1], ast.If) and not f.body[-1].orelse \
+            and not any(isinstance(x, (ast.Yield, ast.YieldFrom))
+                        for x in ast.walk(f)):
+        last = f.body[-1]
+        f.body[-1:] = [ast.If(test=_neg(last.test),
+                              body=[ast.Return(value=None)], orelse=[])] + \
+            list(last.body)
+        changed = True
+    return changed
+
+
+def t_unguard(f: ast.FunctionDef, tree: ast.Module) -> bool:
+    """``if c: continue; REST`` (in a loop body) -> ``if not c: REST``."""
+    changed = False
+    for n in ast.walk(f):
+        if isinstance(n, (ast.For, ast.While)):
+            for i, st in enumerate(n.body):
+                if isinstance(st, ast.If) and not st.orelse and len(
+                        st.body) == 1 and isinstance(st.body[0],
+                                                     ast.Continue) \
+                        and i + 1 < len(n.body):
+                    rest = n.body[i + 1:]
+                    n.body[i:] = [ast.If(test=_neg(st.test), body=rest,
+                                         orelse=[])]
+                    changed = True
+                    break
     return changed
 
 
@@ -338,6 +389,8 @@ TRANSFORMS: dict[str, Callable[[ast.FunctionDef, ast.Module], bool]] = {
     "log-ends": t_log_ends,
     "hoist-return": t_hoist_return,
     "hoist-args": t_hoist_args,
+    "guard-clause": t_guard_clause,
+    "unguard": t_unguard,
 }
 
 
